@@ -1,12 +1,167 @@
-/- Driver ops for the Cli model. Stub until the model lands. -/
+/- Driver ops for the Cli model (C18): `cli.exit`, `cli.argv`, `cli.parser`, `cli.parseinput`, `cli.initctx`. -/
 import Lean.Data.Json
 import PypyrModel.Json
+import PypyrModel.Cli
 
 namespace Pypyr.OpCli
-open Lean (Json)
+open Lean (Json JsonNumber)
+open Pypyr.Cli
 
-/-- Handle one request object (already parsed); `Except.error` = protocol-level reject. -/
-def handle (_op : String) (_j : Json) : Except String Json :=
-  .error "not implemented"
+def natJ (n : Nat) : Json := Json.num (JsonNumber.fromNat n)
+def optJ {α} (f : α → Json) : Option α → Json
+  | none => Json.null
+  | some a => f a
+def strsJ (xs : List String) : Json := Json.arr (xs.map Json.str).toArray
+
+def strsOf (j : Json) : Except String (List String) := do
+  (← j.getArr?).toList.mapM Json.getStr?
+
+def raisedOf (j : Json) : Except String Raised := do
+  match ← (← j.getObjVal? "kind").getStr? with
+  | "nothing" => pure .nothing
+  | "stop" => pure .stop
+  | "stopPipeline" => pure .stopPipeline
+  | "stopStepGroup" => pure .stopStepGroup
+  | "keyboardInterrupt" => pure .keyboardInterrupt
+  | "error" => pure (.error (← (← j.getObjVal? "ty").getStr?) (← (← j.getObjVal? "msg").getStr?))
+  | k => throw s!"unknown kind {k}"
+
+def parserOf (s : String) : Except String Parser :=
+  match s with
+  | "pypyr.parser.keyvaluepairs" => pure .keyvaluepairs
+  | "pypyr.parser.argskwargs" => pure .argskwargs
+  | "pypyr.parser.dict" => pure .dict
+  | "pypyr.parser.list" => pure .list
+  | "pypyr.parser.string" => pure .string
+  | "pypyr.parser.keys" => pure .keys
+  | "pypyr.parser.json" => pure .json
+  | _ => throw s!"not a built-in parser: {s}"
+
+/-- `json.loads` for the driver: Lean's JSON parser, integers only (a JSON number with a fraction
+    or exponent becomes a Python float, which is outside the modelled domain). Object keys come
+    back in Lean's (sorted) order; the harness compares json results up to key order. -/
+partial def jsonToVal (j : Json) : Except Exc Val :=
+  match j with
+  | .null => .ok .none
+  | .bool b => .ok (.bool b)
+  | .num n => if n.exponent == 0 then .ok (.int n.mantissa) else .error ⟨"OutOfDomain", "non-integer json number"⟩
+  | .str s => .ok (.str s)
+  | .arr xs => do
+    let vs ← xs.toList.mapM jsonToVal
+    pure (.list vs)
+  | .obj kvs => do
+    let ps ← kvs.toList.mapM fun (k, v) => do
+      let v' ← jsonToVal v
+      pure (Val.str k, v')
+    pure (.dict ps)
+
+/-- Is there a number with a fraction or exponent (`1.5`, `1e2`) outside string literals? -/
+def hasFloatLit : List Char → Bool → Bool → Bool → Bool
+  | [], _, _, _ => false
+  | _ :: cs, true, true, _ => hasFloatLit cs true false false        -- escaped char inside a string
+  | c :: cs, true, false, _ =>
+    if c == '\\' then hasFloatLit cs true true false
+    else if c == '"' then hasFloatLit cs false false false
+    else hasFloatLit cs true false false
+  | c :: cs, false, _, prevDigit =>
+    if c == '"' then hasFloatLit cs true false false
+    else if prevDigit && (c == '.' || c == 'e' || c == 'E') then true
+    else hasFloatLit cs false false c.isDigit
+
+def loadsImpl (s : String) : Except Exc Val :=
+  -- a Python float: outside the modelled domain (`1e2` would even parse to exponent 0 in Lean)
+  if hasFloatLit s.toList false false false then .error ⟨"OutOfDomain", "float literal in json"⟩
+  else match Json.parse s with
+    | .error e => .error ⟨"json.decoder.JSONDecodeError", e⟩
+    | .ok j => jsonToVal j
+
+def argsJ (a : Args) : Json :=
+  Json.mkObj [("name", Json.str a.name), ("ctx", strsJ a.ctx), ("groups", optJ strsJ a.groups),
+    ("success", optJ Json.str a.success), ("failure", optJ Json.str a.failure),
+    ("dir", optJ Json.str a.dir), ("log", optJ natJ a.log), ("logpath", optJ Json.str a.logpath)]
+
+/-- `int()` accepts more spellings than the model's digit strings; a `--log` value that is neither
+    all digits nor plainly not a number is outside the modelled domain. -/
+def logValuesOk : List String → Bool
+  | [] => true
+  | "--" :: _ => true
+  | o :: v :: rest =>
+    if o == "--log" || o == "--loglevel" then
+      let cs := v.toList
+      ((!cs.isEmpty && cs.all Char.isDigit) || (!cs.isEmpty && cs.all Char.isAlpha) || startsWithDash v)
+        && logValuesOk (v :: rest)
+    else logValuesOk (v :: rest)
+  | [_] => true
+
+def excResult {α} (f : α → Json) (r : Except Exc α) : Except String Json :=
+  match r with
+  | .error e => if e.name == "OutOfDomain" then .error ("out of domain: " ++ e.msg)
+                else .ok (Json.mkObj [("err", e.toJson)])
+  | .ok a => .ok (Json.mkObj [("ok", f a)])
+
+def optBoolOf (j : Json) (k : String) : Except String (Option Bool) := do
+  match ← j.getObjVal? k with
+  | .null => pure none
+  | .bool b => pure (some b)
+  | _ => throw s!"{k}: null or bool expected"
+
+def optStrsOf (j : Json) (k : String) : Except String (Option (List String)) := do
+  match ← j.getObjVal? k with
+  | .null => pure none
+  | v => pure (some (← strsOf v))
+
+def handle (op : String) (j : Json) : Except String Json := do
+  match op with
+  | "exit" =>
+    let r ← raisedOf (← j.getObjVal? "raised")
+    let m := cliMain (pipelineRun r)
+    pure (Json.mkObj [("status", natJ (exitStatus r)), ("stdout", Json.str m.stdout), ("stderr", Json.str m.stderr)])
+  | "main" =>
+    -- the ladder of `cli.main` alone (what `pipelinerunner.run` raised), and `Pipeline.run` alone
+    let r ← raisedOf (← j.getObjVal? "raised")
+    let m := cliMain r
+    let kindOf : Raised → String := fun
+      | .nothing => "nothing" | .stop => "stop" | .stopPipeline => "stopPipeline"
+      | .stopStepGroup => "stopStepGroup" | .keyboardInterrupt => "keyboardInterrupt" | .error _ _ => "error"
+    pure (Json.mkObj [("ret", optJ natJ m.ret), ("stdout", Json.str m.stdout), ("stderr", Json.str m.stderr),
+                      ("pipeline_run", Json.str (kindOf (pipelineRun r)))])
+  | "argv" =>
+    let argv ← strsOf (← j.getObjVal? "argv")
+    if !logValuesOk argv then throw "out of domain: --log value"
+    match parseArgv argv with
+    | .outside => throw "out of domain: argv outside the modelled grammar"
+    | .usage => pure (Json.mkObj [("usage", Json.bool true)])
+    | .ok a => pure (Json.mkObj [("ok", argsJ a), ("call", Json.mkObj [
+        ("pipeline_name", Json.str (runCallOf a).pipelineName), ("args_in", strsJ (runCallOf a).argsIn),
+        ("parse_args", optJ Json.bool (runCallOf a).parseArgs), ("groups", optJ strsJ (runCallOf a).groups),
+        ("success_group", optJ Json.str (runCallOf a).successGroup),
+        ("failure_group", optJ Json.str (runCallOf a).failureGroup),
+        ("py_dir", optJ Json.str (runCallOf a).pyDir)])])
+  | "parser" =>
+    let p ← parserOf (← (← j.getObjVal? "parser").getStr?)
+    let args ← strsOf (← j.getObjVal? "args")
+    excResult (optJ Val.toJson) (parse loadsImpl p args)
+  | "parseinput" =>
+    let pa ← optBoolOf j "parse_args"
+    let ai ← optStrsOf j "args_in"
+    let dg ← (← j.getObjVal? "dict_given").getBool?
+    pure (Json.bool (getParseInput pa ai dg))
+  | "initctx" =>
+    let parser ← (match ← j.getObjVal? "parser" with
+      | .null => pure none
+      | v => do pure (some (← parserOf (← v.getStr?))) : Except String (Option Parser))
+    let pa ← optBoolOf j "parse_args"
+    let ai ← optStrsOf j "args_in"
+    let di ← (match ← j.getObjVal? "dict_in" with
+      | .null => pure none
+      | v => do pure (some (← Ctx.ofJson v)) : Except String (Option Ctx))
+    match initialContext loadsImpl parser pa ai di with
+    | none => throw "out of domain: parser result with non-string keys"
+    | some r =>
+      let ran := getParseInput pa ai di.isSome
+      match excResult Ctx.toJson r with
+      | .error e => throw e
+      | .ok o => pure (o.setObjVal! "parser_runs" (Json.bool ran))
+  | _ => .error s!"unknown op {op}"
 
 end Pypyr.OpCli
